@@ -34,6 +34,13 @@ type pair struct {
 	Rename map[string]string
 	// SkipSpecVars: spec variables that have no Go image (none expected)
 	SkipSpecVars []string
+	// Prepare, if set, writes the TLA+ module(s) into dir itself (copy a spec or .expectpcal, run
+	// pcal, add an MC module defining operator constants) instead of comparePair copying
+	// SpecDir/Module.tla; it returns the root module handed to TLC ("" = Module).
+	Prepare func(dir string) (root string, err error)
+	// ScalarArch: archetypes instantiated by `process (P = id)`: their locals are plain (not
+	// self-indexed) variables in the translation.
+	ScalarArch map[string]bool
 	// SkipGoGlobals: environment bookkeeping of the Go-side model that is not a spec variable
 	SkipGoGlobals []string
 	Quick      bool
@@ -90,6 +97,10 @@ func specImage(sys *ss.System, p *pair, s *ss.State) map[string]string {
 			if name == "-" {
 				continue
 			}
+			if p.ScalarArch[n[:strings.Index(n, ".")]] {
+				out[name] = ss.Canon(normNil(v))
+				continue
+			}
 			fn[name] = append(fn[name], tla.RecordField{Key: self, Value: normNil(v)})
 		}
 	}
@@ -133,16 +144,27 @@ func comparePair(p *pair, env hres.Env) (*cmpResult, error) {
 		return nil, err
 	}
 	defer os.RemoveAll(dir)
-	src, err := os.ReadFile(filepath.Join(repo(), p.SpecDir, p.Module+".tla"))
-	if err != nil {
-		return nil, err
+	root := p.Module
+	if p.Prepare != nil {
+		r, err := p.Prepare(dir)
+		if err != nil {
+			return nil, fmt.Errorf("prepare: %w", err)
+		}
+		if r != "" {
+			root = r
+		}
+	} else {
+		src, err := os.ReadFile(filepath.Join(repo(), p.SpecDir, p.Module+".tla"))
+		if err != nil {
+			return nil, err
+		}
+		os.WriteFile(filepath.Join(dir, p.Module+".tla"), src, 0o644)
 	}
-	os.WriteFile(filepath.Join(dir, p.Module+".tla"), src, 0o644)
 	os.WriteFile(filepath.Join(dir, "MC.cfg"), []byte(p.Cfg), 0o644)
 	os.Setenv("VERIF_SCRATCH", dir)
 	ctx, cancel := context.WithTimeout(context.Background(), 20*time.Minute)
 	defer cancel()
-	g, out, err := tlabridge.DumpGraph(ctx, dir, p.Module, filepath.Join(dir, "MC.cfg"), 20*time.Minute, "-deadlock", "-workers", "4")
+	g, out, err := tlabridge.DumpGraph(ctx, dir, root, filepath.Join(dir, "MC.cfg"), 20*time.Minute, "-deadlock", "-workers", "4")
 	os.Setenv("VERIF_SCRATCH", scratch)
 	if err != nil {
 		return nil, fmt.Errorf("TLC: %w\n%s", err, tailStr(out, 2000))
@@ -173,6 +195,9 @@ func comparePair(p *pair, env hres.Env) (*cmpResult, error) {
 	}
 	specEdges := map[string]bool{}
 	for _, e := range g.Edges {
+		if e.Action == "Terminating" && e.From == e.To {
+			continue // the translator's stuttering step on the all-Done state is no process's step
+		}
 		specEdges[specKey[e.From]+"--"+e.Action+"->\n"+specKey[e.To]] = true
 	}
 	// Go side
@@ -204,7 +229,11 @@ func comparePair(p *pair, env hres.Env) (*cmpResult, error) {
 		if !inside[e.From] || !inside[e.To] {
 			continue
 		}
-		act := stripArch(r.GraphStates[e.From].PC(e.P)) + "(" + ss.Canon(sys.Procs[e.P].Self) + ")"
+		pc := r.GraphStates[e.From].PC(e.P)
+		act := stripArch(pc) + "(" + ss.Canon(sys.Procs[e.P].Self) + ")"
+		if p.ScalarArch[pc[:strings.Index(pc, ".")]] {
+			act = stripArch(pc) // `process (P = id)`: the translation's actions take no argument
+		}
 		goEdges[goKey[e.From]+"--"+act+"->\n"+goKey[e.To]] = true
 	}
 	if d := os.Getenv("VERIF_C02_DUMP"); d != "" { // debugging aid: dump both key sets
